@@ -81,6 +81,7 @@ class Module:
         if not os.environ.get("VERIF_NO_ALPHA"):
             from . import alpha, normalise
             self.tree = normalise.lower_ifexp(self.tree)
+            self.attr_renames = alpha.normalise_attributes(name, self.tree)
             known = alpha.baseline().get("__functions__")
             if known:
                 self.inlined = normalise.inline_new_helpers(name, self.tree, set(known))
@@ -175,9 +176,10 @@ class Repo:
                             Module.link_parents(child)
                             child._parent = node
                             self.renamed.setdefault(q, {})["<comprehension>"] = "<loop>"
+                    pm = alpha.normalise_params(q, child) if not os.environ.get("VERIF_NO_ALPHA") else {}
                     mp = alpha.normalise_function(q, child)
-                    if mp:
-                        self.renamed[q] = mp
+                    if mp or pm:
+                        self.renamed[q] = {**pm, **mp}
                     base = alpha.baseline()
                     if base and not os.environ.get("VERIF_NO_ALPHA"):
                         if q in base:
@@ -187,6 +189,9 @@ class Repo:
                         else:
                             reviewed = None
                         al = normalise.inline_new_aliases(child, reviewed)
+                        if normalise.raise_new_accumulators(child, reviewed):
+                            ast.fix_missing_locations(child)
+                            al = al + normalise.inline_new_aliases(child, reviewed) + ["<accumulator loop>"]
                         if al:
                             self.renamed.setdefault(q, {}).update({a: "<inlined>" for a in al})
                             ast.fix_missing_locations(child)
